@@ -30,7 +30,7 @@ func init() {
 
 func runC18(c *Ctx) {
 	p := c.Progs["mod"]
-	c.Rule("C18.L", "liveness gate", 11)
+	c.Rule("C18.L", "liveness gate", 12)
 	c.Rule("C18.F", "shared fallback only when the user has no match", 3)
 	c.Rule("C18.N", "lookup by the user's e-mail and the request path; 404 when it fails; stored backend entities stay loadable", 6)
 	c.Rule("C18.S", "shape of the most-specific-prefix selection", 9)
@@ -225,6 +225,47 @@ func runC18(c *Ctx) {
 			}
 			c.Check("C18.L", "poll:records-seen-before-returning", p, site.Pos(), why == "", "ListPendingRequests returns only after registerBackendAsSeen has run, under the caller's context", why+": the tracker write is abandoned whenever the query finishes first — an agent that polls continuously is not recorded as live and its users get 404")
 		}
+	}
+	// (re-)registering a backend always puts its tracker back to "not seen": whoever is named
+	// as the backend's agent now has not polled yet, whatever an earlier agent did
+	if f := c.need(p, "C18.L", "app/store.(*persistentStore).AddBackend"); f != nil && len(f.Blocks) > 0 {
+		isTrackerPut := func(i ssa.Instruction) bool {
+			cc := CallOf(i)
+			if cc == nil || CalleeName(cc) != "google.golang.org/appengine/v2/datastore.Put" {
+				return false
+			}
+			src := PArgs(cc)[2]
+			for _, r := range Roots(src) {
+				if NamedTypeRel(r.Type()) == "app/store.backendTracker" {
+					return true
+				}
+			}
+			return false
+		}
+		hit, _ := (&Walk{Target: func(i ssa.Instruction) bool {
+			r, isR := i.(*ssa.Return)
+			return isR && r.Parent() == f && IsNilConst(ReturnValue(r, 0))
+		}, Avoid: isTrackerPut}).FromBlock(f.Blocks[0])
+		where := ""
+		if hit != nil {
+			where = p.Pos(hit.Pos())
+		}
+		okOld := false
+		for _, put := range Calls(f, "google.golang.org/appengine/v2/datastore.Put") {
+			if !isTrackerPut(put) {
+				continue
+			}
+			for _, r := range Roots(PArgs(CallOf(put))[2]) {
+				if v, has := LiteralField(r, "LastSeen"); has {
+					if add := CallResult(v, 0, "(time.Time).Add"); add != nil {
+						if k, isC := ConstInt(PArgs(&add.Call)[1]); isC && k <= -int64(5*60*1e9) && CallResult(PArgs(&add.Call)[0], 0, "time.Now") != nil {
+							okOld = true
+						}
+					}
+				}
+			}
+		}
+		c.Check("C18.L", "AddBackend:every-success-reset-the-tracker", p, f.Pos(), hit == nil && okOld, "a nil return of AddBackend is only reached through a Put of the tracker with LastSeen = now minus the liveness window", "AddBackend can succeed without putting the tracker back to 'not seen' (return at "+where+", tracker value ok: "+fmt.Sprint(okOld)+"): a backend re-registered for another agent keeps the liveness the previous agent earned, so requests are routed to it although its agent has never polled")
 	}
 	if f := c.need(p, "C18.L", "app/store.(*persistentStore).registerBackendAsSeen"); f != nil {
 		if nk := c.UniqueCall("C18.L", p, f, false, "google.golang.org/appengine/v2/datastore.NewKey"); nk != nil {
